@@ -16,46 +16,43 @@ property C05's subject); the post-state itself is compared field by field on the
 namespace Zrnt.Beacon.Block
 open Zrnt.Beacon Zrnt.Beacon.Spec
 
+/-- The part of `process_block` that every fork shares: `process_randao`, `process_eth1_data`, `process_operations`
+and, [New in Altair], `process_sync_aggregate`. -/
+def process_block_rest (cfg : Config) (s : State) (block : SignedBlock) : SM State := do
+  let s ← process_randao cfg s block
+  let s ← process_eth1_data cfg s block
+  let s ← process_operations cfg s block  -- [Modified in Capella]
+  if s.fork = .phase0 then pure s else
+  let some sa := block.sync_aggregate | invalid "block.no_sync_aggregate"
+  process_sync_aggregate cfg s sa  -- [New in Altair]
+
 /-- `process_block` of the state's fork. A block whose container belongs to another fork is not a
-block of this fork's `BeaconBlock` type at all: rejected. -/
+block of this fork's `BeaconBlock` type at all: rejected.
+```python
+    process_block_header(state, block)
+    if is_execution_enabled(state, block.body): process_execution_payload(...)   # bellatrix
+    process_withdrawals(state, block.body.execution_payload)                    # capella, deneb
+    process_execution_payload(state, block.body, EXECUTION_ENGINE)              # capella, deneb (unconditional)
+    process_randao(state, block.body); process_eth1_data(state, block.body); process_operations(state, block.body)
+    process_sync_aggregate(state, block.body.sync_aggregate)                    # from altair
+``` -/
 def process_block (cfg : Config) (s : State) (block : SignedBlock) : SM State := do
   require (block.fork = s.fork) "block.container_of_other_fork"
-  check_limits cfg block
-  match s.fork with
-  | .phase0 => do
-    let s ← process_block_header cfg s block
-    let s ← process_randao cfg s block
-    let s ← process_eth1_data cfg s block
-    process_operations cfg s block
-  | .altair => do
-    let s ← process_block_header cfg s block
-    let s ← process_randao cfg s block
-    let s ← process_eth1_data cfg s block
-    let s ← process_operations cfg s block
-    let some sa := block.sync_aggregate | invalid "block.no_sync_aggregate"
-    process_sync_aggregate cfg s sa  -- [New in Altair]
-  | .bellatrix => do
-    let s ← process_block_header cfg s block
-    let some payload := block.execution_payload | invalid "block.no_execution_payload"
-    let s ← if is_execution_enabled cfg s payload then
+  check_types cfg block
+  let s ← process_block_header cfg s block
+  let s ← (match s.fork with
+    | .phase0 | .altair => pure s
+    | .bellatrix => do
+      let some payload := block.execution_payload | invalid "block.no_execution_payload"
+      if is_execution_enabled cfg s payload then
         process_execution_payload cfg s block payload  -- [New in Bellatrix]
       else pure s
-    let s ← process_randao cfg s block
-    let s ← process_eth1_data cfg s block
-    let s ← process_operations cfg s block
-    let some sa := block.sync_aggregate | invalid "block.no_sync_aggregate"
-    process_sync_aggregate cfg s sa
-  | .capella | .deneb => do
-    let s ← process_block_header cfg s block
-    let some payload := block.execution_payload | invalid "block.no_execution_payload"
-    -- [Modified in Capella] Removed `is_execution_enabled` check in Capella
-    let s ← process_withdrawals cfg s payload  -- [New in Capella]
-    let s ← process_execution_payload cfg s block payload  -- [Modified in Capella] [Modified in Deneb]
-    let s ← process_randao cfg s block
-    let s ← process_eth1_data cfg s block
-    let s ← process_operations cfg s block  -- [Modified in Capella]
-    let some sa := block.sync_aggregate | invalid "block.no_sync_aggregate"
-    process_sync_aggregate cfg s sa
+    | .capella | .deneb => do
+      let some payload := block.execution_payload | invalid "block.no_execution_payload"
+      -- [Modified in Capella] Removed `is_execution_enabled` check in Capella
+      let s ← process_withdrawals cfg s payload  -- [New in Capella]
+      process_execution_payload cfg s block payload)  -- [Modified in Capella] [Modified in Deneb]
+  process_block_rest cfg s block
 
 /-- `verify_block_signature`: `proposer = state.validators[signed_block.message.proposer_index]`
 (IndexError ⇒ invalid), BLS verification = oracle Boolean. -/
